@@ -286,33 +286,43 @@ def appClosed (h : History) : Bool :=
     parked (its last `write` returned pending); no reader is parked (its last `read` returned
     pending) while the peer has written bytes it has not received, or has closed its write side
     without EOF having been seen. -/
+def c06LivenessCore (h : History) : Option String :=
+  let a := appRun h
+  let pendingConnect := (h.foldl (fun (acc : List Nat) e =>
+    match e.1, e.2 with
+    | .connect _ c _ _, [.pending] => acc ++ [c]
+    | .cpoll c _, [.pending] => if acc.contains c then acc else acc ++ [c]
+    | .cpoll c _, _ => acc.filter (· != c)
+    | _, _ => acc) []).isEmpty
+  if !a.connectErrs.isEmpty then some "connect failed although loss stayed within the retransmit budget"
+  else if !pendingConnect then some "connect parked forever"
+  else
+    (a.recs.findSome? fun r =>
+      if !r.errs.isEmpty then some "an operation failed although loss stayed within the retransmit budget"
+      else if r.lastWritePending then some "writer parked forever"
+      else match r.mate with
+        | none => some "connected stream whose peer was never handed out by accept"
+        | some m =>
+          let mr := a.recs.getD m default
+          if r.lastRead == some .pending then
+            if r.readBytes.length != mr.written.length then some "reader parked although written bytes are outstanding"
+            else if mr.shut && !r.sawEof then some "reader parked although the peer closed: EOF never delivered"
+            else none
+          else none)
+
 def c06Liveness (cfg : Cfg) (h : History) : Option String :=
   if !withinBudget cfg h then none
   else if trailingQuiet h < cfg.retxThreshold + 1 then none
   else if appClosed h then none
-  else
-    let a := appRun h
-    let pendingConnect := (h.foldl (fun (acc : List Nat) e =>
-      match e.1, e.2 with
-      | .connect _ c _ _, [.pending] => acc ++ [c]
-      | .cpoll c _, [.pending] => if acc.contains c then acc else acc ++ [c]
-      | .cpoll c _, _ => acc.filter (· != c)
-      | _, _ => acc) []).isEmpty
-    if !a.connectErrs.isEmpty then some "connect failed although loss stayed within the retransmit budget"
-    else if !pendingConnect then some "connect parked forever"
-    else
-      (a.recs.findSome? fun r =>
-        if !r.errs.isEmpty then some "an operation failed although loss stayed within the retransmit budget"
-        else if r.lastWritePending then some "writer parked forever"
-        else match r.mate with
-          | none => some "connected stream whose peer was never handed out by accept"
-          | some m =>
-            let mr := a.recs.getD m default
-            if r.lastRead == some .pending then
-              if r.readBytes.length != mr.written.length then some "reader parked although written bytes are outstanding"
-              else if mr.shut && !r.sawEof then some "reader parked although the peer closed: EOF never delivered"
-              else none
-            else none)
+  else c06LivenessCore h
+
+/-- The same for an end-to-end fixture run, where the wire is not in the trace: the harness reports
+    how many packets its rule dropped and the longest delay it imposed (in scheduler ticks = egress
+    rounds), and every blocking call was given far more patience than a retransmit cycle. -/
+def c06LivenessE2E (cfg : Cfg) (drops hold : Nat) (h : History) : Option String :=
+  if decide (drops < cfg.retxMax) && decide (2 * hold < (cfg.retxMax - drops) * cfg.retxThreshold) then
+    c06LivenessCore h
+  else none
 
 /-- The history the *model* produces for an op list (used to state liveness about the model). -/
 def modelHistory (cfg : Cfg) (hosts : Nat) (ops : List Op) : History :=
